@@ -479,6 +479,11 @@ class Compiler(object):
 
             mask = int(bin(reversed_mask)[2:][::-1], 2)
             number_of_bits = reversed_mask.bit_length()
+        elif default.startswith('0x') and 'named-bits' not in resolved_member:
+            # Without named bits every bit of the hstring is significant,
+            # also trailing zero bits.
+            number_of_bits = 4 * (len(default) - 2)
+            mask = int(default[2:] or '0', 16)
         elif default.startswith('0x'):
             if len(default) % 2 == 1:
                 default += '0'
